@@ -1,6 +1,6 @@
 (* Props/C16.v — property theorems only; proofs live in Proofs/C16*.v. *)
 From Coq Require Import List NArith ZArith Bool.
-From Cedar Require Import Lib.Bytes Lib.SymC16 Model.ClaimId Proofs.C16Str Proofs.C16Dec Proofs.C16Info Proofs.C16Main Proofs.C16Mint Proofs.C16Corrupt Proofs.C16Facts.
+From Cedar Require Import Lib.Bytes Lib.SymC16 Model.ClaimId Proofs.C16Str Proofs.C16Dec Proofs.C16Info Proofs.C16Main Proofs.C16Mint Proofs.C16Corrupt Proofs.C16Facts Proofs.C16Cache.
 Import ListNotations.
 
 (* The facts regenerated from /repo's source on every run (HKDF salt/info, key
@@ -46,6 +46,35 @@ Theorem C16_same_session : forall o secret now m io,
     /\ (forall s, e_expiry e = ExpAbs s -> e_expiry (m_entry m) = ExpAbs s).
 Proof. exact same_session. Qed.
 Print Assumptions C16_same_session.
+
+(* Caches with a history.  SessionCache.Store replaces the entry filed under the id, so an
+   import (claim or file-transfer) into ANY cache - one that already holds a stale, re-issued
+   or corrupted-secret entry under the same session id included - leaves exactly the freshly
+   derived entry there ... *)
+Theorem C16_import_overwrites : forall (ft : bool) (c : cache) claim io sid e cmds,
+  (if ft then import_ft claim io else import_claim claim io) = Ok (sid, e, cmds) ->
+  import_into ft c claim io = (cache_store e c, Ok (sid, e, cmds))
+  /\ cache_lookup sid (fst (import_into ft c claim io)) = Some e.
+Proof. exact import_overwrites. Qed.
+Print Assumptions C16_import_overwrites.
+
+(* ... and so does a mint ... *)
+Theorem C16_mint_overwrites : forall c o secret now m,
+  mint o secret now = Ok m ->
+  cache_lookup (m_sid m) (fst (mint_into c o secret now)) = Some (m_entry m).
+Proof. exact mint_overwrites. Qed.
+Print Assumptions C16_mint_overwrites.
+
+(* ... hence C16_same_session holds whatever the importing cache held before. *)
+Theorem C16_same_session_any_cache : forall o secret now m io c,
+  secret_ok secret -> mint o secret now = Ok m ->
+  exists e, cache_lookup (m_sid m) (fst (import_into false c (m_claim m) io)) = Some e
+    /\ e_key e = e_key (m_entry m) /\ e_proto e = e_proto (m_entry m)
+    /\ (forall n, n <> A_User -> plookup n (e_policy e) = plookup n (e_policy (m_entry m)))
+    /\ (io_duration_ns io = mo_lifetime_ns o -> e_expiry e = e_expiry (m_entry m))
+    /\ (forall s, e_expiry (m_entry m) = ExpAbs s -> e_expiry e = ExpAbs s).
+Proof. exact same_session_any_cache. Qed.
+Print Assumptions C16_same_session_any_cache.
 
 (* An importer whose text yields any other key string holds a different session key. *)
 Theorem C16_other_secret_other_key : forall o secret now m claim' io sid' e' cmds',
